@@ -201,7 +201,7 @@ def tlc(module, cfg, *, workers=8, simulate=None, depth=None, seed=None, env=Non
         m = _INV.search(line)
         if m and not r.violated:
             r.violated = m.group(1)
-        if "is violated" in line and not r.violated:
+        if ("is violated" in line or "was violated" in line) and not r.violated:
             m2 = re.search(r"propert\w+ (\S+) (?:is|was) violated", line)
             r.violated = m2.group(1) if m2 else "property"
         if "Temporal properties were violated" in line and not r.violated:
